@@ -26,9 +26,15 @@ def eval_fn(P, f, atoms, args=None, depth=0):
                 return v
         return None
 
+    env = {}
+
     def ev(e):
         e0 = e
         e = strip(e)
+        if e[0] == 'var' and e[1] in env:
+            return env[e[1]]
+        if e[0] == 'call' and re.search(r'bool>?::(then|then_some)$', e[1]) and e[2]:
+            return ev(e[2][0])          # presence of the produced Option
         if e[0] == 'int':
             return bool(e[1]) if (len(e) > 2 and e[2] == 'bool') else e[1]
         if e[0] == 'arg' and e[1] in args:
@@ -66,6 +72,20 @@ def eval_fn(P, f, atoms, args=None, depth=0):
     steps = 0
     while steps < 200:
         steps += 1
+        # values assigned along the walked path (bool temporaries that merge the arms of `&&` / `||`)
+        if hasattr(f, 'blocks') and not isinstance(f, _Substituted):
+            for st in f.blocks[b]['stmts']:
+                if st['k'] == 'Assign' and not st['place']['proj'] and f.local_ty(st['place']['local']) == 'bool':
+                    try:
+                        env[st['place']['local']] = ev(f.expr_of_rvalue(st['rv']))
+                    except (Undecided, Exception):
+                        env.pop(st['place']['local'], None)
+            t_ = f.term(b)
+            if t_['k'] == 'Call' and not t_['dest']['proj'] and f.local_ty(t_['dest']['local']) == 'bool':
+                try:
+                    env[t_['dest']['local']] = ev(f.expr_of_call(t_))
+                except (Undecided, Exception):
+                    env.pop(t_['dest']['local'], None)
         if b in exits and f.term(b)['k'] == 'Return' or (b in exits and b not in sw and not [y for y in f.succ(b)]):
             return ev(expand(f, exits[b]['expr']))
         s = sw.get(b)
@@ -185,8 +205,8 @@ def run(ctx):
                 e = strip(expand(g, g.exits()[0]['expr'])) if len(g.exits()) == 1 else None
                 hops += 1
             flt = [c_ for c_ in calls_in(e)] if e is not None else []
-            fl = [c_ for c_ in flt if c_[3].endswith('Iterator::filter')]
-            bad = [short(c_[3]) for c_ in flt if re.search(r'Iterator::(skip|take|step_by|filter_map|take_while|skip_while|rev)$', c_[3])]
+            fl = [c_ for c_ in flt if c_[3].endswith('Iterator::filter') or c_[3].endswith('Iterator::filter_map')]
+            bad = [short(c_[3]) for c_ in flt if re.search(r'Iterator::(skip|take|step_by|take_while|skip_while|rev)$', c_[3])]
             over = any(isinstance(x, tuple) and x[0] == 'field' and x[2] == 'types' for x in walk(e)) if e is not None else False
             if len(fl) == 1 and not bad and over and is_call(e, 'Iterator::collect'):
                 pf = predicate_fn(P, fl[0][2][1])
@@ -209,11 +229,22 @@ def run(ctx):
                     det = 'filter table (predefined, resolved) -> kept: %s' % {k: v for k, v in sorted(t.items())}
                     # the kept entries are mapped to their own key
                     mp = [c_ for c_ in flt if c_[3].endswith('Iterator::map')]
-                    okm = len(mp) == 1
-                    if okm:
-                        mf = predicate_fn(P, mp[0][2][1])
-                        ex_ = [strip(x['expr']) for x in mf.exits()] if mf is not None else []
-                        okm = len(ex_) == 1 and ex_[0][0] == 'field' and ex_[0][2] == '0'
+                    if fl[0][3].endswith('Iterator::filter_map'):
+                        # the kept entry's key: then(|| key.clone())
+                        okm = not mp
+                        ths = [c_ for x_ in pf.exits() for c_ in calls_in(expand(pf, x_['expr'])) if re.search(r'bool>?::then$', c_[1])]
+                        okm = okm and len(ths) == 1 and len(ths[0][2]) == 2
+                        if okm:
+                            kf = predicate_fn(P, ths[0][2][1])
+                            caps_ = ths[0][2][1][2] if ths[0][2][1][0] == 'closure' else []
+                            ex_ = [strip(subst_closure(kf, x['expr'], [], caps_)) for x in kf.exits()] if kf is not None else []
+                            okm = len(ex_) == 1 and ex_[0][0] == 'field' and ex_[0][2] == '0'
+                    else:
+                        okm = len(mp) == 1
+                        if okm:
+                            mf = predicate_fn(P, mp[0][2][1])
+                            ex_ = [strip(x['expr']) for x in mf.exits()] if mf is not None else []
+                            okm = len(ex_) == 1 and ex_[0][0] == 'field' and ex_[0][2] == '0'
                     ok = ok and okm
         ob(['C10', 'C09'], 'TypeRegistry::' + nm, ok, '%s() lists exactly the keys of the entries that are not predefined and %s resolved (all of them, no other filter): %s' % (
             nm, 'not' if nm == 'unresolved' else 'are', det), f)
